@@ -305,7 +305,7 @@ def make_harness(op, n, m=0, use_validator=True, mask=None, factory=None, twins=
             try:
                 apply(op, ListModel(before) if ex.sym else list(before), key, good, k, True)
                 exc_l = None
-            except (IndexError, ValueError, TypeError) as e:
+            except (IndexError, ValueError, TypeError, OverflowError) as e:
                 exc_l = type(e).__name__
         ex.check(exc_t == exc_r or (exc_r == "TraitError" and exc_l is not None and exc_t == exc_l),
                  "same exception class as list (TraitError for an invalid item)")
@@ -423,6 +423,27 @@ def wildcard_list_harness(ex):
     return {"early": early}
 
 
+def notifiers_copied_harness(ex):
+    """TraitList(items, notifiers=lst) takes the notifiers it is given at construction: what the caller does with ITS list
+    afterwards, and what another TraitList built from the same list does, changes nothing"""
+    got = {"a": [], "b": []}
+    shared = [lambda tl, index, removed, added: got["a"].append((index, list(removed), list(added)))]
+    a = tlo.TraitList([1, 2], notifiers=shared)
+    b = tlo.TraitList([5], notifiers=shared)
+    what = ex.choice("caller_then", 3)
+    if what == 0:
+        del shared[:]
+    elif what == 1:
+        shared.append(lambda tl, index, removed, added: got["b"].append("late"))
+    else:
+        b.notifiers.append(lambda tl, index, removed, added: got["b"].append("b only"))
+    a.append(3)
+    ex.check(got["a"] == [(2, [], [3])] and got["b"] == [], "a content change emits exactly one notification to the notifiers given at construction, "
+                                                            "whatever became of the caller's list or of another TraitList's notifiers")
+    ex.check(list(a) == [1, 2, 3] and list(b) == [5], "contents equal the built-in list's after the same operation")
+    return {"what": what}
+
+
 def obligations(tier, build):
     obs = []
     N = 4 if tier == "quick" else 6
@@ -531,6 +552,8 @@ def obligations(tier, build):
                           bounds={"list length n": "unbounded Int >= 0", "start, stop": "unbounded Int or None",
                                   "step": "-8..8 or None (constant divisor in the count closed form)"},
                           leverage="all of start/stop/length", max_paths=60000, **common))
+    obs.append(Obligation("notifiers-copied", notifiers_copied_harness, bounds={"afterwards the caller": ["clears its list", "appends to it", "another TraitList gets a notifier"]},
+                          leverage="choice feasibility only", stubs=[]))
     obs.append(Obligation("owned-wildcard", wildcard_list_harness, bounds={"declaration": "xs_ = List(Int); attribute xs_b",
                                                                           "operations": ["append", "item assignment", "item deletion"]},
                           leverage="choice feasibility only", stubs=[]))
